@@ -537,13 +537,9 @@ func (e *Engine) emitGreedy(p *partition, survivors *[]*run) []map[string]any {
 	if len(p.pending) == 0 {
 		return nil // 默认贪婪模式每事件调用：无在途匹配时短路，避免无用 map 分配
 	}
-	active := make(map[int64]bool, len(*survivors))
-	for _, r := range *survivors {
-		active[r.startSeq] = true
-	}
 	var ready []int64
 	for s := range p.pending {
-		if !active[s] && s >= p.nextStart {
+		if s >= p.nextStart {
 			ready = append(ready, s)
 		}
 	}
@@ -552,6 +548,20 @@ func (e *Engine) emitGreedy(p *partition, survivors *[]*run) []map[string]any {
 	for _, s := range ready {
 		if s < p.nextStart {
 			continue // 被前一轮 SKIP 推进跳过（直接守卫，与 emitLazy 一致）
+		}
+		// Leftmost-first: a start is decided only when no live run began at or before it.
+		// A run of the same start may still grow this match; a run of an earlier start may
+		// still complete and, under the SKIP rule, take these rows first. emitOne prunes
+		// survivors, so the scan is repeated per start.
+		blocked := false
+		for _, r := range *survivors {
+			if r.startSeq <= s {
+				blocked = true
+				break
+			}
+		}
+		if blocked {
+			break
 		}
 		best := p.pending[s][0]
 		emitted = append(emitted, e.emitOne(p, best, survivors)...)
